@@ -357,9 +357,10 @@ Definition userlists_of (secrets : list (string * list string)) (requests : list
 
 (* WriteFrontendMaps: which host answers for a server alias.  visit = the hosts map as
    (hostname, alias name); a declared hostname keeps its name, otherwise the first
-   requesting host in hostname order (Hosts.BuildSortedItems) *)
+   requesting host in hostname order (Hosts.BuildSortedItems: the default host is not visited) *)
 Definition alias_ltb (a b : string * string) : bool := str_ltb (fst a) (fst b).
 Definition alias_owner (visit : list (string * string)) (alias : string) : option string :=
   if String.eqb alias "" then None
   else if existsb (fun h => String.eqb (fst h) alias) visit then None
-  else option_map fst (find (fun h => String.eqb (snd h) alias) (isort alias_ltb visit)).
+  else option_map fst (find (fun h => String.eqb (snd h) alias)
+                            (isort alias_ltb (filter (fun h => negb (String.eqb (fst h) default_host)) visit))).
